@@ -36,4 +36,31 @@ let () =
             (if g then "G1" else "G0") ^ "|" ^ enc_str (Str.join [n_of_int 59] st.ExprGen.stmts) ^ "|" ^
             enc_str (ExprGen.guard_str [] false lit_str r)
         with Outside -> "SKIP")
+    | _ -> "ERR args");
+  (* path_den <esc> <expr> <data> : model: path text | hoisted statements | D<keys joined by ;> or N.
+     SKIP when a hoisted expression evaluates outside the value fragment or there is no path *)
+  register "path_den" (function
+    | [esc; sx; dsx] ->
+        (try
+          let e = expr_of (parse_sexp sx) in
+          let lit_str = mk_lit_str esc in
+          let d = val_of (parse_sexp dsx) in
+          let ev = { Val.e_data = d; Val.e_scopes = [] } in
+          let ((st, _), r) = ExprGen.prepare [] lit_str e (ExprGen.mk_gst BinNums.N0) in
+          let outside = ref false in
+          let hv i =
+            (match L.find_opt (fun (j, _) -> j = i) st.ExprGen.hoists with
+             | Some (_, he) -> (match Val.eval ev he with Some v -> Some v | None -> outside := true; None)
+             | None -> None) in
+          L.iter (fun (i, _) -> ignore (hv i)) st.ExprGen.hoists;
+          (match r with
+           | ExprGen.PRes (Some p, _) when not !outside ->
+               let (text, ok) = ExprGen.lvalue_path [] lit_str (Some true) (Some p) in
+               let den = (match LvPath.path_den hv p with
+                          | Some ks -> "D" ^ S.concat ";" (L.map enc_str ks)
+                          | None -> "N") in
+               let value = (match Val.eval ev e with Some _ -> "V" | None -> "O") in
+               enc_str text ^ "|" ^ enc_str (Str.join [n_of_int 59] st.ExprGen.stmts) ^ "|" ^ den ^ "|" ^ value
+           | _ -> "SKIP")
+        with Outside -> "SKIP")
     | _ -> "ERR args")
